@@ -137,6 +137,21 @@ def gen_A(rng, max_n):
     return {"params": params, "rescale": rescale, "ops": ops, "kind": kind}
 
 
+def gen_A_fill(rng, max_n):
+    """a regular chain, a column added (or replaced) with fill_default_array after the constructor, then a history"""
+    c = gen_A(rng, max_n)
+    while c["kind"] != "regular":
+        c = gen_A(rng, max_n)
+    names = [k for k, _ in c["params"]]
+    n = len(c["params"][0][1])
+    r = rng.random()
+    name = rng.choice(names) if r < 0.2 else rng.choice([k for k in NAMES_POOL + ["extra", "w_new"] if k not in names])
+    m = n if rng.random() < 0.9 else n + 1          # a wrong length is an AssertionError
+    c["fill"] = (name, [float(x) for x in draw_column(rng, m)])
+    c["kind"] = "fill"
+    return c
+
+
 def state_of(c):
     dic = getattr(c, "rescale_dic", None)
     return {
@@ -162,6 +177,14 @@ def impl_A(case):
             return out, None
         out["init"] = "ok"
         out["after_init"] = state_of(c)
+        if case.get("fill"):
+            # a column added to the (rescaled or not) chain between the constructor and the history
+            try:
+                c.fill_default_array(case["fill"][0], np.array(case["fill"][1], dtype=float))
+                out["fill"] = "ok"
+            except Exception as e:  # noqa
+                out["fill"] = "AssertionError" if isinstance(e, AssertionError) else err_enum(e)
+                return out, c
         outcomes = []
         for op in case["ops"]:
             try:
@@ -401,6 +424,12 @@ def compare_A(case, tr, o, res):
     if tr["init"] != "ok":
         res.count("A.init=" + tr["init"])
         return
+    if case.get("fill"):
+        if m.get("fill") != tr.get("fill"):
+            res.disagree("A: fill_default_array outcome impl %s model %s" % (tr.get("fill"), m.get("fill")), enc)
+            return
+        if tr.get("fill") != "ok":
+            return
     if m["outcomes"] != tr["outcomes"]:
         res.disagree("A: call outcomes impl %s model %s" % (tr["outcomes"], m["outcomes"]), enc)
         return
@@ -423,11 +452,17 @@ def compare_A(case, tr, o, res):
 
 
 def encode_A(case):
-    return {"params": enc_params(case["params"]), "rescale": case["rescale"], "ops": case["ops"], "kind": case["kind"]}
+    d = {"params": enc_params(case["params"]), "rescale": case["rescale"], "ops": case["ops"], "kind": case["kind"]}
+    if case.get("fill"):
+        d["fill"] = [case["fill"][0], fl(case["fill"][1])]
+    return d
 
 
 def decode_A(d):
-    return {"params": dec_params(d["params"]), "rescale": d["rescale"], "ops": d["ops"], "kind": d["kind"]}
+    c = {"params": dec_params(d["params"]), "rescale": d["rescale"], "ops": d["ops"], "kind": d["kind"]}
+    if d.get("fill"):
+        c["fill"] = (d["fill"][0], unfl(d["fill"][1]))
+    return c
 
 
 # ----------------------------------------------------------------------------------------------
@@ -992,6 +1027,7 @@ def run(ctx, res):
 
     # ---- A
     casesA = FIXED_A + [gen_A(rng, 40 if quick else 300) for _ in range(ctx.n(300, 5000))]
+    casesA += [gen_A_fill(rng, 40 if quick else 300) for _ in range(ctx.n(60, 600))]
     for c in casesA:
         fails, tr = oracle_A(c)
         res.evaluations += 1
@@ -1001,7 +1037,11 @@ def run(ctx, res):
         if c["ops"] or c["rescale"]:
             res.signatures.add(("A", len(c["params"]), c["rescale"], tuple(c["ops"]), c["kind"]))
         report("A", fails, encode_A(c))
-        drv.append(("A", c, tr, {"op": "C13.run", "params": enc_params(c["params"]), "rescale": c["rescale"], "ops": c["ops"]}))
+        if c.get("fill"):
+            drv.append(("A", c, tr, {"op": "C13.fill", "params": enc_params(c["params"]), "rescale": c["rescale"], "ops": c["ops"],
+                                     "name": c["fill"][0], "values": fl(c["fill"][1])}))
+        else:
+            drv.append(("A", c, tr, {"op": "C13.run", "params": enc_params(c["params"]), "rescale": c["rescale"], "ops": c["ops"]}))
     res.sample({"stream": "A", "names": [k for k, _ in casesA[8]["params"]], "n": len(casesA[8]["params"][0][1]),
                 "rescale": casesA[8]["rescale"], "ops": casesA[8]["ops"]})
     # ---- A2: unit changes between rescalings (oracle only)
@@ -1161,7 +1201,9 @@ def replay(ctx, data):
 LEVEL_TEXT = ("Lean 4 theorems over the reals for the executable model of Chain / the vector helpers / the KDE branch "
               "of CosmoLikelihood.likelihood / import_Planck_chain: round trip to the unit cube and back restores "
               "the samples (and the other way round), unit samples lie in [0,1] with both ends attained, a second "
-              "call in the same direction is refused, every history of calls refines a two-state machine "
+              "call in the same direction is refused — also after a column was added with fill_default_array, which changes "
+              "neither the flag nor the stored ranges (fill_keeps_flag_and_ranges, refuse_to_after_fill, "
+              "refuse_to_history_after_fill) —, every history of calls refines a two-state machine "
               "(induction over the history), the vector helpers are mutual inverses and reproduce the chain's unit "
               "samples with the chain's stored ranges, the point handed to the KDE is the sampled cosmology in the "
               "chain's order mapped with the chain's ranges, the KDE term is identical under any affine change of "
